@@ -71,6 +71,38 @@ Definition descriptor_block_loc (s : sbinfo) (blocks_count group_block i : N) : 
     then ret + blocks_per_group s + (if bg_has_super s (bg + 1) then 1 else 0)
     else ret + hs0.
 
+(* the same with bigalloc's group-zero adjustment, as repaired: with 1k blocks and a cluster ratio above 1 (big)
+   s_first_data_block is 0 although the primary superblock sits in block 1; the old-style descriptor blocks follow their
+   superblock - all of them one block further when that is the primary one (group_block = 0), none when it is a backup -
+   and in the meta_bg part only the copy in group 0 (i = 0, no jump to the second group) is shifted *)
+Definition descriptor_block_loc_big (big : bool) (s : sbinfo) (blocks_count group_block i : N) : N :=
+  let adj := if (blocksize s =? 1024) && big then 1 else 0 in
+  if negb (meta_bg s) || (i <? first_meta_bg s) then group_block + i + 1 + (if group_block =? 0 then adj else 0)
+  else
+    let bg := desc_per_block s * i in
+    let hs0 := if bg_has_super s bg then 1 else 0 in
+    let ret := group_first_block s bg in
+    if negb (group_block =? first_data_block s) && (ret + hs0 + blocks_per_group s <? blocks_count)
+    then ret + blocks_per_group s + (if bg_has_super s (bg + 1) then 1 else 0)
+    else ret + hs0 + (if i =? 0 then adj else 0).
+
+(* as the code was: the old-style part shifted block 0 only, whatever superblock was in use *)
+Definition descriptor_block_loc_big_old (big : bool) (s : sbinfo) (blocks_count group_block i : N) : N :=
+  let adj := if (i =? 0) && (blocksize s =? 1024) && big then 1 else 0 in
+  if negb (meta_bg s) || (i <? first_meta_bg s) then group_block + i + 1 + adj
+  else
+    let bg := desc_per_block s * i in
+    let hs0 := if bg_has_super s bg then 1 else 0 in
+    let ret := group_first_block s bg in
+    if negb (group_block =? first_data_block s) && (ret + hs0 + blocks_per_group s <? blocks_count)
+    then ret + blocks_per_group s + (if bg_has_super s (bg + 1) then 1 else 0)
+    else ret + hs0 + adj.
+
+(* what e2fsck's superblock check enforces (PR_0_FIRST_DATA_BLOCK): with 1k blocks s_first_data_block is 0 exactly
+   when the cluster ratio is above 1 *)
+Definition big_wf (big : bool) (s : sbinfo) : Prop :=
+  blocksize s = 1024 -> (big = true <-> first_data_block s = 0).
+
 (* ext2fs_list_backups for sparse_super: state (three, five, seven); dgrp_t saturates at 2^32-1 *)
 Definition DGRP_MAX := 4294967295.
 Definition list_backups_step (st : N * N * N) : N * (N * N * N) :=
